@@ -6,14 +6,22 @@ MC   : TLC checks the step formulation of AtMostOnce / DefBeforeFirstUse / Every
        RegistryMatchesDocument on (A) one context x every id x every container form that
        renderCSSItemsToBuilder / cssProcessor.Add distinguish and (B) two contexts in every mode combination
        (initialised once / made by CSSMiddleware / uninitialised); thorough adds the full product bounded to
-       histories of 6 uses.  Negative configs (shared key space, RenderScriptItems does not record, registry in
-       a package variable, middleware classes inlined, each container form as coded) must be rejected.
+       histories of 6 uses.  SetNonce(ctx) = templ.WithNonce on the context at any point of a history, in every
+       context mode (first thing in an mw context = a nonce middleware inside NewCSSMiddleware; on an uninitialised
+       context it initialises it), leaves the registry untouched (NonceKeepsRegistry).  Negative configs (shared key
+       space, RenderScriptItems does not record, registry in a package variable, middleware classes inlined, each
+       container form as coded, WithNonce forgets the registry -- rejected through AtMostOnce and, separately,
+       through MiddlewareNeverInlined) must be rejected.
 GEN  : every transition of A and B is replayed on the real runtime: the source state is re-established by
        replaying the shortest history that reaches it, every use is a real generated template (harness/c12/
        uses.templ), mw contexts live inside a real HTTP request through templ.NewCSSMiddleware; the output is
        tokenised (x/net/html), projected to def/use/body tokens and compared with the model; the step
        properties are evaluated on the REAL tokens.  Two concretisations: hand-made script/class values that
        share one name, and generated script/css templates.  Simulated histories of 40 uses are replayed too.
+       SetNonce is replayed as ctx = templ.WithNonce(ctx, "<nonce>") at that point of the history (inside the
+       running request for mw contexts); a violation that disappears when the same history is replayed without
+       WithNonce gets the signature Registry.SetNonce.<property>.  Bonus (drift only): <script> tags emitted after
+       it carry the nonce, <style> tags never do, as in the unchanged code.
 """
 import concurrent.futures as cf
 import json, os, sys
@@ -24,7 +32,7 @@ MC = "MCRenderCtxRegistry"
 TAG2REPAIR = {"KvCompUnknownName": "KvCompName", "SliceKVNoRules": "SliceKVRules"}
 ALLREP = '{"KvCompName", "SliceKVRules"}'
 PROPS = {"AtMostOnce", "DefBeforeFirstUse", "EveryUseHasCallOrName", "MiddlewareNeverInlined", "StylesheetServesRegistered",
-         "ContextsIndependent", "RegistryMatchesDocument"}
+         "ContextsIndependent", "RegistryMatchesDocument", "NonceKeepsRegistry"}
 
 
 def tla_set(xs):
@@ -62,6 +70,13 @@ def main():
         "kvComp as coded (KeyValue[ComponentCSSClass,bool] named unknown-type)": ("nA5.cfg", with_repaired(negA.replace('"sharedKeys"', '"asCoded"'), ["SliceKVRules"])),
         "packageState (registry shared by all contexts)": ("nB1.cfg", negB),
     }
+    negN = spec_file("RenderCtxRegistry_negNonce.cfg")
+    negs_exact = {
+        "nonceForgets (WithNonce derives a fresh context value) -> AtMostOnce": ("nN1.cfg", negN, "AtMostOnce"),
+        "nonceForgets (WithNonce derives a fresh context value) -> MiddlewareNeverInlined":
+            ("nN2.cfg", negN.replace("PROPERTIES AtMostOnce", "PROPERTIES MiddlewareNeverInlined"), "MiddlewareNeverInlined"),
+    }
+    f_negx = {k: (pool.submit(vlib.tlc, MC, fn, files={fn: text}, workers=2, timeout=600), want) for k, (fn, text, want) in negs_exact.items()}
     f_neg = {k: pool.submit(vlib.tlc, MC, fn, files={fn: text}, workers=2, timeout=600) for k, (fn, text) in negs.items()}
     genA0 = pool.submit(vlib.tlc, MC, "RenderCtxRegistry_genA.cfg", workers=1, timeout=900)
     genBf = pool.submit(vlib.tlc, MC, "RenderCtxRegistry_genB.cfg", workers=1, timeout=900)
@@ -79,7 +94,11 @@ def main():
         r = f.result()
         if r.violated not in PROPS:
             raise vlib.InfraError("negative config %s was not rejected (%s)" % (k, r.violated))
-    ck.set("negative_configs_rejected", sorted(f_neg))
+    for k, (f, want) in f_negx.items():
+        r = f.result()
+        if r.violated != want:
+            raise vlib.InfraError("negative config %s was not rejected through %s (%s)" % (k, want, r.violated))
+    ck.set("negative_configs_rejected", sorted(f_neg) + sorted(f_negx))
 
     sc = vlib.scratch()
     reg = ["k1"]
@@ -149,7 +168,7 @@ def main():
             raise vlib.InfraError("not every edge reached its source state in both concretisations: %d/%d, %d/%d" % (
                 sA["steps"], 2 * len(edgesA), sB["steps"], 2 * len(edgesB)))
     need = {"RenderScriptComponent", "ElementWithOnAttrs", "ElementWithClasses", "ElementWithClassAndOn", "OnceWithBlock",
-            "OnceWithComponent", "StylesheetRequest"}
+            "OnceWithComponent", "StylesheetRequest", "SetNonce"}
     if set(sA["actions"]) != need or set(sB["actions"]) != need:
         raise vlib.InfraError("use kinds exercised: %s / %s" % (sorted(sA["actions"]), sorted(sB["actions"])))
 
@@ -164,6 +183,20 @@ def main():
     if sH["behaviours"] < min(num, len({json.dumps(h, sort_keys=True) for h in hists})):
         raise vlib.InfraError("harness replayed %d of %d behaviours" % (sH["behaviours"], len(hists)))
 
+    # fail closed: WithNonce really was applied inside histories and uses were checked after it, in every replay
+    for nm, st in (("A", sA), ("B", sB), ("sim", sH)):
+        if st["nonce_sets"] == 0 or st["uses_after_nonce"] == 0 or (st["scripts_with_nonce"] == 0 and st["drift"] == 0):
+            raise vlib.InfraError("nonce binding not exercised in replay %s: %s" % (nm, {k: st[k] for k in ("nonce_sets", "uses_after_nonce", "scripts_with_nonce")}))
+    mw_nonce = sum(1 for e in edgesA + edgesB if e["lbl"]["a"] != "SetNonce" and e["lbl"]["a"] != "StylesheetRequest" and e["lbl"]["nonce"] > 0
+                   and any(c["m"] == "mw" and c["nn"] > 0 for c in e["from"]["ctx"]))
+    winit = sum(1 for e in edgesA + edgesB if any(c["m"] == "winit" for c in e["from"]["ctx"]))
+    if mw_nonce == 0 or winit == 0:
+        raise vlib.InfraError("no emitted edge uses a middleware context / a WithNonce-initialised context after SetNonce")
+    ck.set("nonce", {"WithNonce_applications": sA["nonce_sets"] + sB["nonce_sets"] + sH["nonce_sets"],
+                     "checked_uses_after_WithNonce": sA["uses_after_nonce"] + sB["uses_after_nonce"] + sH["uses_after_nonce"],
+                     "script_tags_with_expected_nonce": sA["scripts_with_nonce"] + sB["scripts_with_nonce"] + sH["scripts_with_nonce"],
+                     "edges_from_states_with_mw_context_after_WithNonce": mw_nonce,
+                     "edges_from_states_with_WithNonce_initialised_context": winit})
     ck.set("edges_replayed", {"A_one_context_all_forms": sA["edges"], "B_two_contexts_all_modes": sB["edges"]})
     ck.set("real_steps_checked", sA["steps"] + sB["steps"] + sH["steps"])
     ck.set("concretisations", ["hand-made script and class sharing one name", "generated script/css templates"])
@@ -176,16 +209,18 @@ def main():
                                           for k in set(sA["sigs"]) | set(sB["sigs"]) | set(sH["sigs"])})
     ck.set("traces_validated_against_impl", sA["edges"] + sB["edges"] + sH["behaviours"])
     ck.set("exhaustive", True)
-    ck.set("bounds", {"A": "1 context x 3 modes x 2 scripts x 2 classes x 3 handles x 122 class expressions x 5 on-attribute sequences",
-                      "B": "2 contexts x 9 mode combinations x 1 script x 1 class x 2 handles",
-                      "simulation": "%d histories of 40 uses, 2 contexts, all ids, all forms" % num,
+    ck.set("bounds", {"A": "1 context x 3 modes x 2 scripts x 2 classes x 3 handles x 122 class expressions x 5 on-attribute sequences x WithNonce applied 0/1 times at any point",
+                      "B": "2 contexts x 9 mode combinations x 1 script x 1 class x 2 handles x WithNonce applied 0/1 times per context at any point",
+                      "simulation": "%d histories of 40 steps, 2 contexts, all ids, all forms, up to 2 WithNonce per context at random points" % num,
                       "mcFull_history_length": 6 if thorough else None})
     ck.set("rule", "every transition of the reachable registry graphs A and B, each from its source state re-established on the real "
                    "runtime, in 2 concretisations, uses rendered directly / inside a component / inside a child block")
     ck.assume("strings, constant classes and maps of names carry no CSS component (DESIGN.md appendix); they are not uses")
     ck.assume("the invariants are checked as step properties over (ids defined so far in the context's document, tokens of the step); "
               "the ghost set is tied to the real output edge by edge")
-    ck.assume("nonce handling and script elements per hoisted group are not compared")
+    ck.assume("templ.WithNonce is applied to the context the harness renders with (also inside the running request of a middleware context); "
+              "the nonce attribute of emitted <script>/<style> tags is compared with the unchanged code's behaviour as drift only; "
+              "script elements per hoisted group are not compared")
     ck.finish()
 
 
